@@ -220,6 +220,7 @@ class _Cutter(ast.NodeTransformer):
                     d *= c
                 new = ast.Assign(targets=[ast.Name(id=m[0], ctx=ast.Store())],
                                  value=_call('__fc_ceil_div', ast.Name(id=m[1], ctx=ast.Load()), ast.Constant(value=d)))
+                ast.fix_missing_locations(ast.copy_location(new, s1))
                 self.applied.append({'rule': 'cdiv', 'line': s1.lineno,
                                      'before': ast.unparse(s1) + '; ' + ast.unparse(s2), 'after': ast.unparse(new),
                                      'divisors': m[2]})
